@@ -171,6 +171,7 @@ func genC12(t *testing.T) {
 		run(c)
 	}
 	if common.Batch == 0 {
+		nilElemsJoin("C12")
 		soakJoin(common.Pick(20000, 200000))
 	}
 }
